@@ -94,6 +94,9 @@ static char *indent(TestReporter *reporter) {
     static char buffer[1000];
     int depth = get_breadcrumb_depth(reporter->breadcrumb);
 
+    /* nesting deeper than the buffer is indented as far as the buffer goes */
+    if (depth > (int)sizeof(buffer)-1)
+        depth = (int)sizeof(buffer)-1;
     memset(buffer, '\0', depth+1);
     memset(buffer, '\t', depth);
     return buffer;
@@ -163,13 +166,13 @@ static char suite_path[PATH_MAX];
 
 static void strcat_path_segment(const char *segment, void *more_segments) {
     (void)more_segments;
-    if (suite_path[0] != '\0') strcat(suite_path, "-");
+    if (suite_path[0] != '\0') strncat(suite_path, "-", sizeof(suite_path)-strlen(suite_path)-1);
     strncat(suite_path, segment, sizeof(suite_path)-strlen(suite_path)-1);
 }
 
 static void add_suite_name(const char *suite_name) {
     if (suite_path[0] != '\0')
-        strcat(suite_path, "-");
+        strncat(suite_path, "-", sizeof(suite_path)-strlen(suite_path)-1);
     strncat(suite_path, suite_name, sizeof(suite_path)-strlen(suite_path)-1);
 }
 
